@@ -284,7 +284,7 @@ def build_nodes(spec, trace: bool = True, hash_recv: bool = True) -> Dict[str, "
     for c in spec["conns"]:
         nodes[c["dst"]].connect(nodes[c["src"]], blocking=c["blocking"], skip=c["skip"], window=c["window"],
                                 jitter=const.Jitter.LATEST if c["jitter"] == "L" else const.Jitter.BUFFER, delay_dist=make_dist(c["dist"]),
-                                delay=c.get("delay"))
+                                delay=c.get("delay"), name=c.get("name"))
     return {nd.name: nd for nd in nodes}
 
 
@@ -318,3 +318,26 @@ def add_leaves(spec, rng: random.Random, max_leaves: int = 2) -> int:
         spec["conns"].append(dict(dst=i, src=src, blocking=False, skip=False, jitter="L", window=rng.randint(1, 3), dist=["det", _r6(perc * rng.choice([0.0, 0.2]))], delay=None))
     spec["open_loop"] = len(reachable_from_sup(spec)) < len(spec["nodes"])
     return k
+
+
+def add_fast_sinks(spec, rng: random.Random) -> int:
+    """Adds a chain of consumer-only nodes, each up to 3x faster than its source (rule 2 is per connection), so that one node kind runs
+    9-27x as often as the supervisor: more than 10 slots of one kind per partition in the uniform (scan) execution paths."""
+    src = max(range(len(spec["nodes"])), key=lambda i: spec["nodes"][i]["rate"])
+    added = 0
+    for j in range(rng.choice([1, 2, 2])):
+        i = len(spec["nodes"])
+        rate = round(spec["nodes"][src]["rate"] * rng.choice([2, 3, 3]), 3)
+        per = 1.0 / rate
+        d = rng.choice([["det", _r6(per * 0.2)], ["mix", [_r6(per * 0.1), _r6(per * 0.9)], [0.7, 0.3]], ["det", 0.0]])
+        spec["nodes"].append(dict(name=f"n{i}", rate=rate, dist=d, delay=_r6(min(dist_max(d), per)), sched=rng.choice(["F", "P"]), advance=False, jit=True))
+        spec["conns"].append(dict(dst=i, src=src, blocking=False, skip=False, jitter=rng.choice(["L", "B"]), window=rng.randint(1, 3), dist=["det", _r6(per * rng.choice([0.0, 0.3]))], delay=None))
+        src = i
+        added += 1
+    spec["open_loop"] = len(reachable_from_sup(spec)) < len(spec["nodes"])
+    return added
+
+
+def input_name(spec, c) -> str:
+    """Key of connection c in the receiver's `inputs` (a shadow name if one was given, else the producer's name)."""
+    return c.get("name") or spec["nodes"][c["src"]]["name"]
